@@ -595,8 +595,33 @@ ExprBound(e) ==
                       ELSE IF e.op = "*" THEN (IF x > 30000 \/ y > 30000 THEN 1000000000 ELSE Sat(x * y))
                       ELSE 1
     [] e.t = "where" -> MaxI(ExprBound(e.x), ExprBound(e.y))
+\* what Python evaluates an expression to: the library's plain variable class
+\* ("PV") outranks a bare numpy masked array ("MA", the result of np.ma.where),
+\* so PV <op> MA is computed on the DATA of the masked array and its mask is
+\* lost; the library's masked variable class ("MV") outranks both.  Where such
+\* a node meets masked cells the value is whatever lies under the mask: those
+\* assignments are not decided (the property speaks of evaluating the
+\* expression on the file's arrays, which is what happens)
+RECURSIVE ExprKind(_, _)
+ExprKind(f, e) ==
+  CASE e.t = "var" -> IF VarRec(f, e.k).masked THEN "MV" ELSE "PV"
+    [] e.t = "int" -> "S"
+    [] e.t = "asarr" -> "NA"
+    [] e.t = "where" -> "MA"
+    [] e.t = "bin" -> LET ks == {ExprKind(f, e.l), ExprKind(f, e.r)} IN
+                      IF "MV" \in ks THEN "MV" ELSE IF "PV" \in ks THEN "PV"
+                      ELSE IF "MA" \in ks THEN "MA" ELSE IF "NA" \in ks THEN "NA" ELSE "S"
+RECURSIVE ExprMixed(_, _)
+ExprMixed(f, e) ==
+  CASE e.t = "bin" -> \/ {ExprKind(f, e.l), ExprKind(f, e.r)} = {"PV", "MA"}
+                      \/ ExprMixed(f, e.l) \/ ExprMixed(f, e.r)
+    [] e.t = "where" -> ExprMixed(f, e.c) \/ ExprMixed(f, e.x) \/ ExprMixed(f, e.y)
+    [] e.t = "asarr" -> ExprMixed(f, e.e)
+    [] OTHER -> FALSE
 Dec_eval(f, a) ==
   \A i \in 1..Len(a.assign) :
+    /\ (ExprMixed(f, a.assign[i].e) =>
+          \A k \in ExprVars(a.assign[i].e) : \A c \in 1..Len(VarRec(f, k).mask) : ~VarRec(f, k).mask[c])
     /\ ExprBound(a.assign[i].e) < 1000000000
     /\ \A k \in ExprVars(a.assign[i].e) : MaxAbs(VarRec(f, k)) <= 1000 /\ MaxDen(VarRec(f, k)) = 1 /\ ~HasNonFin(VarRec(f, k))
 =================================================================================
